@@ -521,6 +521,7 @@ def run(chk):
         from . import quant
         F = quant.Formulas(N)
         oks = False
+        undec_site = False
         polw = "no per-key predicate found"
         KEY = ("key",)
         for bb, i, rv in sy:
@@ -562,6 +563,14 @@ def run(chk):
             # classify the leaves
             leaves = {}
 
+            def is_key(x):
+                """the key of the entry, or its decoded form (`Bytes::try_from(key)` on its success side)"""
+                x = quant._strip_refs(x)
+                if x == KEY:
+                    return True
+                inner = x[1] if isinstance(x, tuple) and len(x) == 2 and x[0] == "payload" else None
+                return inner is not None and is_call(inner, "TryFrom::try_from") and "Bytes" in inner[1] and has(inner, lambda y: y == KEY)
+
             def leaf_of(f):
                 if f[0] in ("or", "and"):
                     return all(leaf_of(x) for x in f[1])
@@ -570,14 +579,16 @@ def run(chk):
                 if f[0] in ("true", "false"):
                     return True
                 kind = None
-                if f[0] == "atom" and isinstance(f[1], tuple) and len(f[1]) == 4 and f[1][0] == "call" and f[1][1].endswith("is_empty") and quant._strip_refs(f[1][2][0]) == KEY:
+                if f[0] == "atom" and isinstance(f[1], tuple) and len(f[1]) == 4 and f[1][0] == "call" and f[1][1].endswith("is_empty") and is_key(f[1][2][0]):
                     kind = "E"
                 elif f[0] == "present" and has(f[1], lambda x: x == ("param", 1)):
                     kind = "A"
+                elif f[0] == "present" and has(f[1], lambda x: is_call(x, "TryFrom::try_from") and "Bytes" in x[1]):
+                    kind = "D"   # the key decodes (base64url) — when the decoding and the checks share one loop
                 elif f[0] == "exists" and has(f[1], lambda x: x == ("param", 1)) and f[2][0] == "eq":
                     a, b = (tuple(f[2][1]) + (None, None))[:2]
                     ids = [x for x in (a, b) if isinstance(x, tuple) and len(x) == 3 and x[0] == "field" and x[2] == "id" and isinstance(x[1], tuple) and x[1][:1] == ("bound",)]
-                    keys = [x for x in (a, b) if x == KEY]
+                    keys = [x for x in (a, b) if is_key(x)]
                     kind = "X" if ids and keys else None
                 if kind is None:
                     leaves[f] = None
@@ -602,15 +613,21 @@ def run(chk):
                 import itertools
                 same = True
                 for E, A, X in itertools.product((False, True), repeat=3):
-                    # `allow present` false makes the inner quantifier vacuous: X only matters when A holds
-                    if ev(pred_f, {"E": E, "A": A, "X": X}) != (E or (A and not X)):
+                    # `allow present` false makes the inner quantifier vacuous: X only matters when A holds; the predicate
+                    # is about keys that decode (D): an undecodable key is the other obligation
+                    if ev(pred_f, {"E": E, "A": A, "X": X, "D": True}) != (E or (A and not X)):
                         same = False
-                oks = same
-                polw = "per-key predicate over {key empty, allow list present, ∃ listed id == key} is %sequivalent to  empty ∨ (present ∧ ¬∃)" % ("" if same else "NOT ")
-            else:
+                if all(ev(pred_f, {"E": E, "A": A, "X": X, "D": False}) for E, A, X in itertools.product((False, True), repeat=3)) and "D" in leaves.values():
+                    undec_site = True
+                if same:
+                    oks = True
+                    polw = "per-key predicate over {key empty, allow list present, ∃ listed id == key} is equivalent to  empty ∨ (present ∧ ¬∃)"
+                elif not oks:
+                    polw = "per-key predicate over {key empty, allow list present, ∃ listed id == key} is NOT equivalent to  empty ∨ (present ∧ ¬∃)"
+            elif not oks:
                 polw = "per-key predicate has unrecognised parts: %s" % [str(k)[:100] for k, v in leaves.items() if v is None][:2]
         # undecodable key: Bytes::try_from error mapped to SyntaxError
-        undec = False
+        undec = undec_site
         for nb in p.nested_of(gc):
             if find_aggs(nb, "WebauthnError", "SyntaxError") and nb is not gc:
                 undec = True
